@@ -172,9 +172,15 @@ def t_consume(it):
         b, dq, maxr, w, last = make_budget(it, tree)
         lo0, hi0, arr0 = dq.lo, dq.hi, dq.arr
         cost = fint("cost")
+        from pyvc.modelval import arr_slice, val
+        pth = it.path
+        pth.replay_spec = lambda m: {"component": "budget", "op": "consume", "max_retries": val(m, maxr), "window_s": val(m, w),
+                                     "events": arr_slice(m, arr0, lo0, hi0), "now": val(m, pth.ghost["now"]),
+                                     **({} if pth.ghost.get("default_cost") else {"cost": val(m, cost.t)})}
         meth = BoundV(b, FuncV(tree.func(KEY + ".consume")))
         # default argument path is exercised separately (cost omitted)
         use_default = it.path.choose(2, "default-cost")
+        it.path.ghost["default_cost"] = bool(use_default)
         r = call_catch(it, meth, [] if use_default else [cost])
         c = z3.IntVal(1) if use_default else cost.t
         base = f"{KEY}.consume"
@@ -223,6 +229,10 @@ def t_remaining(it):
     def h(it):
         b, dq, maxr, w, last = make_budget(it, tree)
         lo0, hi0, arr0 = dq.lo, dq.hi, dq.arr
+        from pyvc.modelval import arr_slice, val
+        pth = it.path
+        pth.replay_spec = lambda m: {"component": "budget", "op": "remaining", "max_retries": val(m, maxr), "window_s": val(m, w),
+                                     "events": arr_slice(m, arr0, lo0, hi0), "now": val(m, pth.ghost["now"])}
         meth = BoundV(b, FuncV(tree.func(KEY + ".remaining")))
         r = call_catch(it, meth, [])
         base = f"{KEY}.remaining"
@@ -283,3 +293,6 @@ TASKS = [
     Task("budget.remaining", t_remaining, [P, "C17"], [KEY + ".remaining", KEY + "._prune"]),
     Task("budget.lemma.window_equiv", t_lemma_window, [P], []),
 ]
+
+for _t in TASKS:
+    _t.replay_script = "model_replay.py"
